@@ -606,6 +606,8 @@ def configs(tier):
             out.append({"sim": "beam", "elem": kind, "ops": [a, b]})
     # a per-element field is written for one mesh: sequences that replace the mesh after it are not meaningful
     out = [cf for cf in out if not any(o in FIELD_OPS and any(b in ("newmesh", "set_iter") for b in cf["ops"][k + 1:]) for k, o in enumerate(cf["ops"]))]
+    # ... and a model shared by two simulations on meshes of different sizes cannot carry one per-element field
+    out = [cf for cf in out if not (cf.get("shared") and any(o in FIELD_OPS for o in cf["ops"]) and any(o in ("newmesh", "set_iter") for o in cf["ops"]))]
     # two-member frame: connections are Lagrange conditions, the matrix system is sized for their multipliers
     for kind in (("eulerbernoulli", "timoshenko") if tier == "thorough" else ("eulerbernoulli",)):
         fops = OPS["frame"]
